@@ -16,6 +16,15 @@ AUTHORS = ["Alice", "Bob", "Carol Ann", "Dé"]
 DATES = ["2024-01-05T10:00:00Z", "2024-02-11T09:30:00Z", "2023-12-24T23:59:59Z", None]
 RESTS = ["", "", "", '<w:color w:val="FF0000"/>', '<w:sz w:val="28"/>', '<w:rFonts w:ascii="Arial" w:hAnsi="Arial"/>',
          '<w:u w:val="single"/>', '<w:rStyle w:val="Strong"/>']
+# formatting variants that differ only in attributes other than w:val (or in the spelling of an on/off value)
+REST_FAMILIES = [
+    ['<w:rFonts w:ascii="Arial" w:hAnsi="Arial"/>', '<w:rFonts w:ascii="Times New Roman" w:hAnsi="Times New Roman"/>'],
+    ['<w:shd w:val="clear" w:color="auto" w:fill="FFFF00"/>', '<w:shd w:val="clear" w:color="auto" w:fill="00FF00"/>'],
+    ['<w:color w:val="FF0000"/>', '<w:color w:val="FF0000" w:themeColor="accent1"/>'],
+    ['<w:lang w:val="en-US"/>', '<w:lang w:val="en-US" w:eastAsia="ja-JP"/>'],
+    ['<w:sz w:val="28"/>', '<w:sz w:val="24"/>'],
+    ['<w:u w:val="single"/>', '<w:u w:val="single" w:color="FF0000"/>'],
+]
 ONOFF = [None, None, None, "", "1", "0"]
 OPAQUE_ATOMS = ['<w:sym w:font="Symbol" w:char="F0B7"/>', "<w:softHyphen/>",
                 '<w:drawing><wp:inline distT="0" distB="0"><wp:extent cx="1" cy="1"/></wp:inline></w:drawing>',
@@ -30,7 +39,7 @@ DEFAULT_PROFILE = {
     "runs": (1, 5), "split_identical": 0.25, "tab": 0.12, "br": 0.08, "opaque": 0.06, "ins": 0.18, "del": 0.15,
     "subst": 0.10, "comment": 0.15, "point_comment": 0.03, "reply": 0.4, "bookmark": 0.06, "proof": 0.05,
     "hyperlink": 0.05, "field": 0.04, "header": 0.25, "footer": 0.2, "fmt": 0.45, "empty_run": 0.04,
-    "span": 0.12, "vmerge": 0.08, "comment_in_ins": 0.3, "multi_author": True, "literal_tab": 0.02,
+    "span": 0.12, "vmerge": 0.08, "overlap_comment": 0.06, "para_mark_rev": 0.0, "comment_in_ins": 0.3, "multi_author": True, "literal_tab": 0.02,
 }
 
 
@@ -71,8 +80,26 @@ class Gen:
     def fmt(self):
         r = self.rng
         if r.random() < self.p["fmt"]:
-            return {"b": r.choice(ONOFF), "i": r.choice(ONOFF), "rest": r.choice(RESTS)}
+            rest = r.choice(RESTS) if r.random() < 0.6 else r.choice(r.choice(REST_FAMILIES))
+            return {"b": r.choice(ONOFF), "i": r.choice(ONOFF), "rest": rest}
         return {"b": None, "i": None, "rest": ""}
+
+    def near_variant(self, f):
+        """a format that differs from `f` in one detail only"""
+        r = self.rng
+        g = dict(f)
+        fam = next((fm for fm in REST_FAMILIES if f["rest"] in fm), None)
+        c = r.random()
+        if fam and c < 0.5:
+            g["rest"] = next(x for x in fam if x != f["rest"])
+        elif c < 0.7:
+            fam = r.choice(REST_FAMILIES)
+            g["rest"] = fam[0] if f["rest"] != fam[0] else fam[1]
+        elif c < 0.85:
+            g["b"] = {None: "0", "": "1", "1": "", "0": None}[f["b"]]
+        else:
+            g["i"] = {None: "0", "": "1", "1": "", "0": None}[f["i"]]
+        return g
 
     def run(self, text=None, fmt=None, deleted=False, plain=False):
         r = self.rng
@@ -85,8 +112,22 @@ class Gen:
             ch = [{"k": tk, "s": a}, {"k": "tab"}, {"k": tk, "s": b}]
             self.features.add("tab")
         elif not plain and self.chance("br") and " " in text:
-            a, b = text.split(" ", 1)
-            ch = [{"k": tk, "s": a}, {"k": r.choice(["br", "br", "cr"])}, {"k": tk, "s": b}]
+            words = text.split(" ")
+            if len(words) >= 3 and r.random() < 0.5:
+                # several line breaks in one run (also at its start or end)
+                ch = []
+                for wi, wd in enumerate(words):
+                    if wi > 0:
+                        ch.append({"k": r.choice(["br", "br", "cr"])} if r.random() < 0.7 else {"k": tk, "s": " "})
+                    ch.append({"k": tk, "s": wd})
+                if r.random() < 0.2:
+                    ch.append({"k": "br"})
+                if r.random() < 0.2:
+                    ch.insert(0, {"k": "br"})
+                self.features.add("multi_br")
+            else:
+                a, b = text.split(" ", 1)
+                ch = [{"k": tk, "s": a}, {"k": r.choice(["br", "br", "cr"])}, {"k": tk, "s": b}]
             self.features.add("br")
         elif not plain and r.random() < self.p["literal_tab"] and " " in text:
             ch = [{"k": tk, "s": text.replace(" ", "\t", 1)}]
@@ -109,8 +150,14 @@ class Gen:
         if len(text) > 3 and self.chance("split_identical"):
             k = r.randint(1, len(text) - 1)
             self.features.add("split_identical")
-            same = r.random() < 0.7
-            f2 = f if same else self.fmt()
+            x = r.random()
+            if x < 0.55:
+                f2 = f
+            elif x < 0.8:
+                f2 = self.near_variant(f)
+                self.features.add("near_identical")
+            else:
+                f2 = self.fmt()
             return [self.run(text[:k], f, deleted, plain=True), self.run(text[k:], f2, deleted, plain=True)]
         return [self.run(text, f, deleted)]
 
@@ -223,6 +270,17 @@ class Gen:
             if self.chance("empty_run"):
                 nodes.append({"k": "r", "run": {**self.fmt(), "ch": []}})
                 self.features.add("empty_run")
+        if allow_comment and len(nodes) >= 3 and self.chance("overlap_comment"):
+            # interleaved (overlapping, non-nested) comment ranges: [sA] .. [sB] .. [eA] .. [eB]
+            a, b = self.new_comment(), self.new_comment()
+            pos = sorted(r.sample(range(len(nodes) + 1), min(4, len(nodes) + 1)))
+            if len(pos) == 4:
+                i, j, k, l = pos
+                nodes[l:l] = [{"k": "ce", "id": b}, {"k": "r", "run": self.cref_run(b)}]
+                nodes[k:k] = [{"k": "ce", "id": a}, {"k": "r", "run": self.cref_run(a)}]
+                nodes[j:j] = [{"k": "cs", "id": b}]
+                nodes[i:i] = [{"k": "cs", "id": a}]
+                self.features.add("overlap_comment")
         return nodes
 
     def para(self, **kw):
@@ -238,7 +296,13 @@ class Gen:
             self.features.add("caps_heading")
             f = {"b": r.choice(["", "1"]), "i": None, "rest": ""}
             return {"style": None, "ppr": "", "nodes": [{"k": "r", "run": {**f, "ch": [{"k": "t", "s": self.phrase(2).upper()}]}}]}
-        return {"style": r.choice([None, None, None, "ListParagraph", "Normal"]), "ppr": r.choice(PPRS), "nodes": self.para_nodes(**kw)}
+        ppr = r.choice(PPRS)
+        if self.chance("para_mark_rev"):
+            self.pm_rev = getattr(self, "pm_rev", 900) + 1
+            kind = r.choice(["ins", "del"])
+            ppr += f'<w:rPr><w:{kind} w:id="{self.pm_rev}" w:author="Alice" w:date="2024-01-05T10:00:00Z"/></w:rPr>'
+            self.features.add("para_mark_rev")
+        return {"style": r.choice([None, None, None, "ListParagraph", "Normal"]), "ppr": ppr, "nodes": self.para_nodes(**kw)}
 
     def table(self, depth=0):
         r = self.rng
@@ -265,7 +329,12 @@ class Gen:
                         blocks.append({"p": self.para() if r.random() < 0.85 else {"style": None, "ppr": "", "nodes": []}})
                 cells.append({"pr": '<w:tcW w:w="2000" w:type="dxa"/>', "span": span, "vmerge": vm, "blocks": blocks, "_col": col})
                 col += span
-            rows.append({"pr": r.choice(["", "", "<w:cantSplit/>"]), "cells": cells})
+            rpr = r.choice(["", "", "<w:cantSplit/>"])
+            if self.chance("para_mark_rev"):
+                self.pm_rev = getattr(self, "pm_rev", 900) + 1
+                rpr += f'<w:ins w:id="{self.pm_rev}" w:author="Bob" w:date="2024-01-05T10:00:00Z"/>'
+                self.features.add("row_rev")
+            rows.append({"pr": rpr, "cells": cells})
         # vertical merges: a cell continues the one above when both have the same column and span
         for ri in range(1, nrows):
             for c in rows[ri]["cells"]:
